@@ -6,6 +6,7 @@ package clientresp
 import (
 	"context"
 	"fmt"
+	"io"
 	"net"
 	"os"
 	"reflect"
@@ -259,6 +260,8 @@ func serve(conn net.Conn, c Case, spec opSpec, msg string, sv *served) {
 	}
 }
 
+var caseSeq int
+
 type result struct {
 	Outcome string `json:"outcome"`
 	Carries bool   `json:"carries"`
@@ -306,8 +309,15 @@ func runCase(c Case, spec opSpec, msg string) (res result) {
 	}()
 	ctx, cancel := context.WithTimeout(context.Background(), 5*time.Second)
 	defer cancel()
+	// every second case runs on a client configured with the middlewares the library ships (debug log, correlation value, timeout):
+	// the decision on a response does not depend on them
+	mw := kmipclient.WithMiddlewares()
+	if caseSeq++; caseSeq%2 == 0 {
+		mw = kmipclient.WithMiddlewares(kmipclient.DebugMiddleware(io.Discard, nil), kmipclient.CorrelationValueMiddleware(func() string { return "corr" }),
+			kmipclient.TimeoutMiddleware(time.Minute))
+	}
 	if c.Api == "Dial" {
-		cl, err := kmipclient.DialContext(ctx, "mem", kmipclient.WithDialerUnsafe(dial))
+		cl, err := kmipclient.DialContext(ctx, "mem", kmipclient.WithDialerUnsafe(dial), mw)
 		if err != nil {
 			return result{Outcome: errOutcome(err), Carries: carries(err.Error(), firstNonSuccOr(c.Items), msg), Detail: err.Error()}
 		}
@@ -318,7 +328,7 @@ func runCase(c Case, spec opSpec, msg string) (res result) {
 		}
 		return result{Outcome: "payload"}
 	}
-	cl, err := kmipclient.DialContext(ctx, "mem", kmipclient.WithDialerUnsafe(dial), kmipclient.EnforceVersion(kmip.V1_4))
+	cl, err := kmipclient.DialContext(ctx, "mem", kmipclient.WithDialerUnsafe(dial), kmipclient.EnforceVersion(kmip.V1_4), mw)
 	if err != nil {
 		return result{Outcome: "harness-error", Detail: err.Error()}
 	}
